@@ -3,7 +3,9 @@ package main
 import (
 	"fmt"
 	"math/rand"
+	"os"
 	"sort"
+	"strconv"
 	"time"
 
 	"github.com/lindb/lindb/verif/internal/node"
@@ -41,6 +43,11 @@ type schema struct {
 // baseTime returns the start of the first data hour: the data hours end at least one hour before the current hour,
 // the whole workload lies in the past and far from any clock driven edge (write window is 1 day, retention 30 days).
 func baseTime(hours int) int64 {
+	if v := os.Getenv("C11_BASE"); v != "" { // debugging: replay a case with the base hour of an earlier run (unix ms)
+		if b, err := strconv.ParseInt(v, 10, 64); err == nil {
+			return b
+		}
+	}
 	now := time.Now().UnixMilli()
 	cur := now - now%hourMs
 	return cur - int64(hours+1)*hourMs
